@@ -236,9 +236,10 @@ var rootTraceLimit int
 
 func newRoot(limit int) *otto.Otto {
 	vm := otto.New()
-	if limit > 0 {
-		vm.SetStackDepthLimit(limit)
+	if limit <= 0 {
+		limit = 120 // workloads may recurse without bound once mutated; a limit turns that into a RangeError
 	}
+	vm.SetStackDepthLimit(limit)
 	if rootTraceLimit > 0 {
 		vm.SetStackTraceLimit(rootTraceLimit)
 	}
@@ -560,7 +561,7 @@ func heapFragments(i int) []string {
 		"H.ev" + n + "=eval('(function(){var q=" + n + ";return function(){return q++}})()');R.push({inc:H.ev" + n + ",peek:H.ev" + n + "});",
 		"H.nw" + n + "=new Function('a','return a+" + n + "');",
 		"var SH" + n + "={wv:'w" + n + "'};function mkw" + n + "(tag){with(SH" + n + "){return function(){return tag+wv}}}H.wa" + n + "=mkw" + n + "('a');H.wb" + n + "=mkw" + n + "('b');",
-		"H.mxc" + n + "=0;H.mx" + n + "=Math.max.bind(null,{valueOf:function(){if(H.mxc" + n + "++%2===0)H.mx" + n + "(1000);return 1}},2);",
+		"H.mx" + n + "=(function(){var c=0,f;f=Math.max.bind(null,{valueOf:function(){if(c++%2===0)f(1000);return 1}},2);return f})();",
 		"H.og" + n + "={};H.og" + n + ".a=1;H.og" + n + ".b=2;H.og" + n + ".c=3;H.og" + n + ".d=4;H.og" + n + ".e=5;",
 		"H.pa" + n + "=(function(arguments){return function(){return String(arguments)}})(" + n + ");",
 		"H.em" + n + "={};H.ea" + n + "=[];H.ef" + n + "=function(){};",
@@ -593,7 +594,7 @@ var observeFragments = []string{
 	"try{rec(typeof gg1+':'+(typeof gf1==='function'?gf1():'-'))}catch(e){rec('E'+e)}",
 	"try{var gs=[];for(var gi=0;gi<12;gi++){if(typeof this['gcount'+gi]==='number')gs.push(gi+'='+this['gcount'+gi])}rec(gs.join())}catch(e){rec('E'+e)}",
 	"for(var k in H){try{var fo=H[k];if(fo&&typeof fo==='object'&&k.slice(0,2)==='og'){var fl=[];for(var fk in fo){fl.push(fk);if(fl.length===1){fo.zz=1;delete fo.b}}rec(k+':'+fl.join()+':'+Object.keys(fo).join())}}catch(e){rec('E'+e)}}",
-	"for(var k in H){try{if(k.slice(0,2)==='mx'&&k.charAt(2)!=='c')rec(k+':'+H[k](50)+':'+H[k](7))}catch(e){rec('E'+e)}}",
+	"for(var k in H){try{if(k.slice(0,2)==='mx')rec(k+':'+H[k](50)+':'+H[k](7))}catch(e){rec('E'+e)}}",
 	"for(var k in H){try{if(k.slice(0,2)==='wa')rec(k+':'+H[k]()+','+H['wb'+k.slice(2)]())}catch(e){rec('E'+e)}}",
 	"try{var hs=hslice(3);rec(hs.length+':'+hs.join()+':'+(Object.getPrototypeOf(hs)===Array.prototype)+':'+Array.prototype.isPrototypeOf(hs)+':'+(hs instanceof Array))}catch(e){rec('E'+e)}",
 	"try{var hp=hpair(2,3);rec(String(hp)+':'+(hp instanceof Array)+':'+(Object.getPrototypeOf(hp)===Array.prototype))}catch(e){rec('E'+e)}",
